@@ -252,7 +252,7 @@ func DialWSMethod(t Target, connID string, method string) (*WS, error) {
 		hdr = append(hdr, [2]string{"Rdg-Connection-Id", connID})
 	}
 	hdr = append(hdr, t.Headers...)
-	c.SetDeadline(time.Now().Add(10 * time.Second))
+	c.SetDeadline(time.Now().Add(30 * time.Second))
 	if err := writeRequest(c, method, t.path(), t.Addr, hdr); err != nil {
 		c.Close()
 		return nil, err
@@ -486,7 +486,7 @@ func OpenOut(t Target, connID string) (*Legacy, error) {
 	}
 	hdr := [][2]string{{"Rdg-Connection-Id", connID}, {"Accept", "*/*"}, {"Cache-Control", "no-cache"}}
 	hdr = append(hdr, t.Headers...)
-	c.SetDeadline(time.Now().Add(10 * time.Second))
+	c.SetDeadline(time.Now().Add(30 * time.Second))
 	if err := writeRequest(c, "RDG_OUT_DATA", t.path(), t.Addr, hdr); err != nil {
 		c.Close()
 		return nil, err
@@ -554,7 +554,7 @@ func (l *Legacy) OpenIn(t Target, connID string) error {
 	}
 	hdr := [][2]string{{"Rdg-Connection-Id", connID}, {"Transfer-Encoding", "chunked"}, {"Cache-Control", "no-cache"}}
 	hdr = append(hdr, t.Headers...)
-	c.SetDeadline(time.Now().Add(10 * time.Second))
+	c.SetDeadline(time.Now().Add(30 * time.Second))
 	if len(l.FirstWithHead) > 0 {
 		var rb bytes.Buffer
 		writeRequest(&bufConn{&rb}, "RDG_IN_DATA", t.path(), t.Addr, hdr)
@@ -578,7 +578,7 @@ func (l *Legacy) OpenIn(t Target, connID string) error {
 		}
 		c.Write([]byte("0\r\n\r\n"))
 	}
-	c.SetReadDeadline(time.Now().Add(10 * time.Second))
+	c.SetReadDeadline(time.Now().Add(30 * time.Second))
 	code, h, err := readResponseHead(br)
 	if err != nil {
 		c.Close()
